@@ -37,22 +37,50 @@ def genRegistry : Registry := Gen.Reg.entriesRaw.map Entry.ofRaw
 structure OrderCfg where
   excluded : List String
   skipPatterns : List String
-  sep : String
+  /-- the pattern separator (a one-character string in the source) -/
+  sep : Char
 deriving Repr
 
-def genOrderCfg : OrderCfg := ⟨Gen.Reg.excludedRaw, Gen.Reg.skipPatternsRaw, Gen.Reg.separatorRaw⟩
+/-- the separator read from the source is a single character (obligation `DS.Props.C12.gen_separator`; the driver
+refuses to answer otherwise) -/
+def genSepOk : Bool := Gen.Reg.separatorRaw.toList.length == 1
+
+def genOrderCfg : OrderCfg := ⟨Gen.Reg.excludedRaw, Gen.Reg.skipPatternsRaw, Gen.Reg.separatorRaw.toList.headD '|'⟩
+
+/-- `str.split(c)` for a one-character separator -/
+def splitChar (c : Char) : List Char → List (List Char)
+  | [] => [[]]
+  | a :: s =>
+    if a == c then [] :: splitChar c s
+    else match splitChar c s with
+      | [] => [[a]]
+      | w :: ws => (a :: w) :: ws
+
+/-- insertion into a list sorted by code-point order of strings -/
+def insertSorted (a : String) : List String → List String
+  | [] => [a]
+  | b :: l => if a ≤ b then a :: b :: l else b :: insertSorted a l
+
+/-- `sorted(names)` (a permutation in ascending order; names are distinct dict keys) -/
+def isort : List String → List String
+  | [] => []
+  | a :: l => insertSorted a (isort l)
 
 /-! ## `fnmatch` (POSIX: `normcase` is the identity) for patterns made of literals, `*` and `?` -/
 
+/-- does some suffix of the list (the list itself and `[]` included) satisfy `f`? -/
+def anySuffix (f : List Char → Bool) : List Char → Bool
+  | [] => f []
+  | c :: s => f (c :: s) || anySuffix f s
+
 /-- `globL pattern name` -/
 def globL : List Char → List Char → Bool
-  | [], [] => true
-  | [], _ :: _ => false
-  | '*' :: p, [] => globL p []
-  | '*' :: p, c :: s => globL p (c :: s) || globL ('*' :: p) s
-  | _ :: _, [] => false
-  | a :: p, c :: s => (a == '?' || a == c) && globL p s
-termination_by p s => p.length + s.length
+  | [], s => s.isEmpty
+  | a :: p, s =>
+    if a == '*' then anySuffix (globL p) s
+    else match s with
+      | [] => false
+      | c :: s => (a == '?' || a == c) && globL p s
 
 /-- character classes `[...]` are not modelled; the translator and the driver refuse them -/
 def globSupported (pat : String) : Bool := !(pat.toList.contains '[')
@@ -67,17 +95,17 @@ def basename (p : String) : String := String.ofList (basenameL p.toList)
 
 /-- `sorted(fmt for fmt, prop in parser_index.items() if prop["has_input"])` -/
 def inputFormats (reg : Registry) : List String :=
-  ((reg.filter (·.hasInput)).map (·.name)).mergeSort (fun a b => decide (a ≤ b))
+  isort ((reg.filter (·.hasInput)).map (·.name))
 
 def outputFormats (reg : Registry) : List String :=
-  ((reg.filter (·.hasOutput)).map (·.name)).mergeSort (fun a b => decide (a ≤ b))
+  isort ((reg.filter (·.hasOutput)).map (·.name))
 
 /-- does the file's base name match one of the `sep`-separated patterns of `fmt`
 (patterns `*.*` and `*` never count) -/
 def matchesFmt (cfg : OrderCfg) (reg : Registry) (base : String) (fmt : String) : Bool :=
   match reg.find? (·.name == fmt) with
   | none => false
-  | some e => !(cfg.skipPatterns.contains e.pattern) && (e.pattern.splitOn cfg.sep).any (fun p => fnmatch base p)
+  | some e => !(cfg.skipPatterns.contains e.pattern) && (splitChar cfg.sep e.pattern.toList).any (fun p => globL p base.toList)
 
 /-- the loop `for fmt in list(ofmts): if match: ofmts.remove(fmt); ofmts.insert(0, fmt)` -/
 def reorder (m : String → Bool) (sorted : List String) : List String :=
@@ -318,15 +346,18 @@ def structureRead (i : ReadIn) (o : Obj) : ReadOut :=
     | .none => ⟨none, titleStep i.filename (init0 i.fresh o)⟩
     | .ok n => ⟨none, titleStep i.filename (replace (init0 i.fresh o) n)⟩
 
-/-- `T.read` / `T.readStr` with the `PDFFitStructure` post-step `self.pdffit["spcgr"] = sg.short_name` -/
-def read (i : ReadIn) (o : Obj) : ReadOut :=
-  let r := structureRead i o
-  match o.cls, r.err, i.spacegroup with
+/-- the `PDFFitStructure` post-step `sg = getattr(p, "spacegroup", None); if sg: self.pdffit["spcgr"] = sg.short_name`
+(runs only when `Structure.read` returned, i.e. did not raise) -/
+def postStep (cls : Cls) (sg : Option String) (r : ReadOut) : ReadOut :=
+  match cls, r.err, sg with
   | .pdffit, none, some sg =>
     match getattr r.obj "pdffit" with
     | some (.dict kv) => ⟨none, { r.obj with dict := setKey r.obj.dict "pdffit" (.dict (setKey kv "spcgr" sg)) }⟩
     | _ => ⟨some ("TypeError", "object does not support item assignment"), r.obj⟩
   | _, _, _ => r
+
+/-- `T.read` / `T.readStr` for `T` = `Structure` or `PDFFitStructure` -/
+def read (i : ReadIn) (o : Obj) : ReadOut := postStep o.cls i.spacegroup (structureRead i o)
 
 /-- what the property observes of a structure -/
 structure Obs where
@@ -522,13 +553,13 @@ def loadHandle (ws : List String) : Option String :=
   | ["auto.order", reg, fn] =>
     match parseReg reg, optHex fn with
     | some reg, some fn =>
-      if !regSupported reg || genOrderCfg.sep = "" then some "bad-op" else
+      if !regSupported reg || !genSepOk then some "bad-op" else
       some (",".intercalate ((orderFor genOrderCfg reg fn).map hex))
     | _, _ => some "bad-op"
   | ["auto.run", reg, fn, outs] =>
     match parseReg reg, optHex fn, parseOutcomes outs with
     | some reg, some fn, some outs =>
-      if !regSupported reg || genOrderCfg.sep = "" then some "bad-op" else
+      if !regSupported reg || !genSepOk then some "bad-op" else
       let order := orderFor genOrderCfg reg fn
       -- every candidate must have a scripted outcome: reject otherwise
       if !(order.all (fun f => (outs.lookup f).isSome)) then some "bad-op" else
